@@ -181,6 +181,42 @@ def _find_dependency_ordering_for_fields_in_structure(
     for parameter in type_definition.runtime_parameter:
         added.add(ir_util.hashable_form_of_reference(parameter.name))
     needed = list(range(len(structure.field)))
+    # The alias of a member of an anonymous `bits` (`let x = anonymous_field.x`)
+    # only refers to the anonymous field, but it is written and read in place of
+    # the member, so it has to follow the aliases of everything the member itself
+    # depends on (for example, the sibling that the member's condition reads).
+    local_fields = {
+        ir_util.hashable_form_of_reference(field.name): field
+        for field in structure.field
+    }
+    inherited = {}
+    for field in structure.field:
+        if not field.has_field("read_transform"):
+            continue
+        transform = field.read_transform
+        if (
+            transform.which_expression != "field_reference"
+            or len(transform.field_reference.path) != 2
+        ):
+            continue
+        head = local_fields.get(
+            ir_util.hashable_form_of_reference(transform.field_reference.path[0])
+        )
+        if head is None or not head.name.is_anonymous:
+            continue
+        anonymous_type = ir_util.hashable_form_of_reference(
+            head.type.atomic_type.reference
+        )
+        member = anonymous_type + (
+            transform.field_reference.path[1].source_name[-1].text,
+        )
+        alias = ir_util.hashable_form_of_reference(field.name)
+        inherited[alias] = set()
+        for dependency in dependencies.get(member, ()):
+            if dependency[:-1] == anonymous_type:
+                sibling_alias = alias[:-1] + (dependency[-1],)
+                if sibling_alias in local_fields and sibling_alias != alias:
+                    inherited[alias].add(sibling_alias)
     while True:
         for i in range(len(needed)):
             field_number = needed[i]
@@ -188,7 +224,10 @@ def _find_dependency_ordering_for_fields_in_structure(
                 structure.field[field_number].name
             )
             assert field in dependencies, "dependencies = {}".format(dependencies)
-            if all(dependency in added for dependency in dependencies[field]):
+            if all(
+                dependency in added
+                for dependency in dependencies[field] | inherited.get(field, set())
+            ):
                 order.append(field_number)
                 added.add(field)
                 del needed[i]
